@@ -197,6 +197,11 @@ func (x *FileSyntax) updateLine(line *Line, tokens ...string) {
 // markRemoved modifies line so that it (and its end-of-line comment, if any)
 // will be dropped by (*FileSyntax).Cleanup.
 func (line *Line) markRemoved() {
+	if line == nil {
+		// The entry was already cleared by an earlier Drop or Set call
+		// that has not been followed by Cleanup yet.
+		return
+	}
 	line.Token = nil
 	line.Comments.Suffix = nil
 }
